@@ -217,7 +217,10 @@ class Kernel:
         try:
             self._maybe_fail('DELSA')
         except MODS['xfrm'].NetlinkError:
-            return              # the real delete_sa swallows the error (logging.warning)
+            # the only refusal of XFRM_MSG_DELSA after which the daemon CAN be consistent: the SA had already vanished
+            # from the kernel (hard-expired there) - ESRCH.  The real delete_sa logs the error and goes on.
+            self.sad.pop(k, None)
+            return
         self.sad.pop(k, None)
 
     @staticmethod
@@ -601,3 +604,100 @@ class Ctl:
             r = self.dispatch(dele)
             ep.call(a.process_message, r)
         return req, res, dele
+
+
+# ----------------------------------------------------------------------------- two controllers
+class Net:
+    """two real IkeSaControllers (A at IP1, B at IP2), each with its kernel ghost"""
+
+    def __init__(self, env_setup=None, **conf_kw):
+        cf, ic = MODS['configuration'], MODS['ikesacontroller']
+        ENV.reset()
+        if env_setup is not None:
+            env_setup(ENV)
+        self.confdict = conf_dict(**conf_kw)
+        self.configuration = cf.Configuration([IP1, IP2], self.confdict)
+        self.A, self.B = Endpoint('A', None), Endpoint('B', None)
+        with self.A:
+            self.A.obj = ic.IkeSaController(my_addrs=[IP1], configuration=self.configuration)
+        with self.B:
+            self.B.obj = ic.IkeSaController(my_addrs=[IP2], configuration=self.configuration)
+        self.a, self.b = self.A.obj, self.B.obj
+
+    def ep(self, name):
+        return self.A if name == 'A' else self.B
+
+    def addr(self, name):
+        return IP1 if name == 'A' else IP2
+
+    def dispatch(self, to, data):
+        """deliver a datagram to controller `to`; -> reply"""
+        e = self.ep(to)
+        other = 'B' if to == 'A' else 'A'
+        with e as ctl:
+            return ctl.dispatch_message(data, self.addr(to), self.addr(other))
+
+    def acquire(self, who, index=None, sport=8765, dport=23):
+        """kernel ACQUIRE at controller `who` -> request datagram"""
+        import socket
+        x = MODS['xfrm']
+        me, peer = self.addr(who), self.addr('B' if who == 'A' else 'A')
+        if index is None:
+            index = 1 if who == 'A' else 2
+        if who == 'B':
+            sport, dport = dport, sport
+        acq = x.XfrmUserAcquire(id=x.XfrmId(daddr=x.XfrmAddress.from_ipaddr(peer)), saddr=x.XfrmAddress.from_ipaddr(me),
+                                sel=x.XfrmSelector(saddr=x.XfrmAddress.from_ipaddr(me), sport=sport, daddr=x.XfrmAddress.from_ipaddr(peer),
+                                                   dport=dport, proto=6, family=socket.AF_INET),
+                                policy=x.XfrmUserPolicyInfo(index=index << 3 | 1))
+        with self.ep(who) as ctl:
+            req, _, _ = ctl.process_acquire(acq, {x.XFRMA_TMPL: x.XfrmUserTmpl(family=socket.AF_INET)})
+        return req
+
+    def expire(self, who, spi, hard):
+        import types as _t
+        exp = _t.SimpleNamespace(state=_t.SimpleNamespace(id=_t.SimpleNamespace(spi=spi)), hard=hard)
+        with self.ep(who) as ctl:
+            req, _, _ = ctl.process_expire(exp)
+        return req
+
+    def pump(self, to, data, max_msgs=12, on_step=None):
+        """deliver `data` to `to` and keep exchanging replies until silence; -> list of (receiver, datagram)"""
+        trace = []
+        while data is not None:
+            trace.append((to, data))
+            data = self.dispatch(to, data)
+            if on_step is not None:
+                on_step(to)
+            to = 'B' if to == 'A' else 'A'
+            assert len(trace) < max_msgs
+        return trace
+
+    def establish(self):
+        req = self.acquire('A')
+        self.pump('B', req)
+        S = MODS['ikesa'].IkeSa.State
+        assert len(self.a.ike_sas) == 1 and len(self.b.ike_sas) == 1
+        assert self.a.ike_sas[0].state == S.ESTABLISHED and self.b.ike_sas[0].state == S.ESTABLISHED
+        return self.a.ike_sas[0], self.b.ike_sas[0]
+
+
+def sad_invariant(ctl, kernel):
+    """ghost SAD == inbound+outbound SAs of the CHILD_SAs of the IKE_SAs the controller holds -> list of complaints"""
+    P = MODS['message'].Proposal.Protocol
+    want = {}
+    for e in ctl.ike_sas:
+        for ch in e.child_sas:
+            proto = 50 if ch.proposal.protocol_id == P.ESP else 51
+            want[Kernel.key(e.peer_addr, proto, ch.outbound_spi)] = ('out', ch)
+            want[Kernel.key(e.my_addr, proto, ch.inbound_spi)] = ('in', ch)
+    have = set(kernel.sad)
+    bad = []
+    extra, missing = have - set(want), set(want) - have
+    if extra:
+        bad.append(f'{len(extra)} kernel SA(s) installed but not tracked by any held IKE_SA (orphans): '
+                   + ', '.join(f'{k[0]}/{k[1]}/{k[2].hex() if isinstance(k[2], bytes) else k[2]}' for k in sorted(extra, key=str)))
+    if missing:
+        bad.append(f'{len(missing)} SA(s) of tracked CHILD_SAs are not in the kernel: '
+                   + ', '.join(f'{k[0]}/{k[1]}/{k[2].hex() if isinstance(k[2], bytes) else k[2]}' for k in sorted(missing, key=str)))
+    return bad
